@@ -45,6 +45,7 @@ type State struct {
 	dead       bool
 	loopMark   int    // index into calls at the last loop entry
 	retInLoops []int  // ordinals of the loops whose body contains the return that ended this path
+	loopsDone  []int  // ordinals of the (top-level function's) loops this path left through the header's exit edge
 	panics     string // non-empty: path ended in panic (reason)
 	trace      []string
 }
@@ -54,7 +55,7 @@ func newState() *State {
 }
 
 func (s *State) clone() *State {
-	n := &State{cells: make(map[int]Val, len(s.cells)), worlds: make(map[int]*World, len(s.worlds)), dead: s.dead, panics: s.panics, loopMark: s.loopMark, retInLoops: s.retInLoops}
+	n := &State{cells: make(map[int]Val, len(s.cells)), worlds: make(map[int]*World, len(s.worlds)), dead: s.dead, panics: s.panics, loopMark: s.loopMark, retInLoops: s.retInLoops, loopsDone: s.loopsDone}
 	for k, v := range s.cells {
 		n.cells[k] = v
 	}
